@@ -84,8 +84,9 @@ def extract():
     c["TERM_ESS_CMP"] = "lt_n_total" if "n_total" in _dump(b.comparators[0]) else "other"
     # the ESS used by the guard is computed from the weights at beta = 1 over the whole history
     calls = [n for n in ast.walk(nt) if isinstance(n, ast.Call) and isinstance(n.func, ast.Attribute) and n.func.attr == "compute_logw_and_logz"]
-    if len(calls) != 1 or _num(calls[0].args[0]) != 1.0:
-        raise Unavailable("_not_termination: weights are not computed by compute_logw_and_logz(1.0)")
+    # (a fact, not a parse failure: when the guard asks for other weights the generated flag is 0 and C12's obligation breaks)
+    c["GUARD_WEIGHTS_AT_ONE"] = int(len(calls) == 1 and len(calls[0].args) >= 1 and not calls[0].keywords
+                                    and _num(calls[0].args[0]) == 1.0)
     # run_sampling epilogue: the evidence is recomputed at beta = 1 right after the loop
     rs = _func(core, "SamplerCore", "run_sampling")
     body = rs.body
